@@ -32,7 +32,7 @@ At    == More /\ Ev.t = now
 TInit == /\ tid \in 1..NTraces /\ l = 2 /\ Init /\ xie = Traces[tid][1].exit
 
 TTick == /\ More /\ Ev.t > now /\ now' = Ev.t
-         /\ UNCHANGED <<xie, ist, due, imm, seq, cseq, stamp, loopT, alive, ever, disposed, dispRet, pend, handle,
+         /\ UNCHANGED <<xie, ist, due, imm, eff, seq, cseq, stamp, loopT, alive, ever, disposed, dispRet, pend, handle,
                         runTh, startT, gen, early, late, calls, tid, l>>
 
 TCall   == At /\ Ev.e = "call" /\ Step /\ Call(Ev.th, Ev.op, Ev.item, Ev.d)
